@@ -168,6 +168,7 @@ type world struct {
 	elabs    map[string]*sema.Elaboration // location ID -> elaboration, for checking programs
 	types    *typeTable
 	poolIDs  []string // composite types of the right-typed value pool, most useful first
+	eventJSON string  // a well-formed event value of the deployment (not importable)
 }
 
 var (
@@ -193,7 +194,8 @@ func getWorld(name string) *world {
 		}
 		w = &world{name: name, ledger: l, imports: "import C from 0x1\nimport D from 0x1\n", cChecker: tygen.PreludeChecker(),
 			elabs:   map[string]*sema.Elaboration{dLocation.ID(): ch.Elaboration},
-			poolIDs: []string{"C.S2", "C.S", "C.S3", "C.Inner", "C.En", "D.K", "D.P", "D.W", "D.Rec"}}
+			poolIDs:   []string{"C.S2", "C.S", "C.S3", "C.Inner", "C.En", "D.K", "D.P", "D.W", "D.Rec"},
+			eventJSON: `{"type":"Event","value":{"id":"A.0000000000000001.D.Ev","fields":[{"name":"a","value":{"type":"Int","value":"1"}}]}}`}
 		for _, e := range []*sema.Elaboration{tygen.PreludeChecker().Elaboration, ch.Elaboration} {
 			e.ForEachGlobalType(func(_ string, v *sema.Variable) { collectNominal(v.Type, tt) })
 		}
@@ -206,7 +208,8 @@ func getWorld(name string) *world {
 		}
 		w = &world{name: name, ledger: l, imports: "import C from 0x1\n", cChecker: ch,
 			elabs:   map[string]*sema.Elaboration{tygen.PreludeLocation.ID(): ch.Elaboration},
-			poolIDs: []string{"C.S", "C.Node", "C.Box", "C.En", "C.Emp", "C.S2", "C.W"}}
+			poolIDs:   []string{"C.S", "C.Node", "C.Box", "C.En", "C.Emp", "C.S2", "C.W"},
+			eventJSON: `{"type":"Event","value":{"id":"A.0000000000000001.C.Ev","fields":[{"name":"a","value":{"type":"Int","value":"1"}},{"name":"who","value":{"type":"Optional","value":null}}]}}`}
 		ch.Elaboration.ForEachGlobalType(func(_ string, v *sema.Variable) { collectNominal(v.Type, tt) })
 	default:
 		panic("args: unknown world " + name)
@@ -419,9 +422,10 @@ func newGoodGen(w *world, o *oracle) *goodGen {
 		cadence.NewInt(-2), str(""), cadence.NewBool(false),
 	)
 	for _, v := range leaves {
-		n, vd := o.natural(v, false, 0)
-		if !vd.ok() {
-			panic("args: pool leaf does not resolve: " + vd.Detail)
+		// (the type only: a capability is a right-typed value of `Capability<…>` although it is not importable)
+		n, err := o.semaOf(v.Type())
+		if err != nil {
+			panic(fmt.Sprintf("args: pool leaf does not resolve: %v", err))
 		}
 		g.pool = append(g.pool, v)
 		g.poolT = append(g.poolT, n)
